@@ -48,14 +48,15 @@ func vNewNet(seed int64) *vNet {
 }
 
 type vSimTransport struct {
-	net      *vNet
-	name     string
-	ip       net.IP
-	port     int
-	packetCh chan *Packet
-	streamCh chan net.Conn
-	down     bool // crashed or shut down: black hole
-	gen      int
+	net       *vNet
+	name      string
+	ip        net.IP
+	port      int
+	packetCh  chan *Packet
+	streamCh  chan net.Conn
+	down      bool // crashed or shut down: black hole
+	gen       int
+	failSends bool // WriteToAddress returns a local (non-remote) error
 }
 
 // attach creates (or replaces, for a restart) the transport of a node
@@ -115,6 +116,9 @@ func (t *vSimTransport) WriteTo(b []byte, addr string) (time.Time, error) {
 }
 
 func (t *vSimTransport) WriteToAddress(b []byte, a Address) (time.Time, error) {
+	if t.failSends {
+		return time.Time{}, errors.New("simnet: no route to host (local send failure)")
+	}
 	n := t.net
 	now := time.Now()
 	buf := append([]byte(nil), b...)
